@@ -510,3 +510,176 @@ def main_wrapper(fn, prop, tier):
     print("%s %s: exit %d  states=%d transitions=%d replayed/validated=%d drift=%d wall=%.0fs" % (
         prop, tier, rc, chk.states, chk.transitions, chk.traces, chk.drift, time.time() - chk.t0))
     return rc
+
+
+# ----------------------------------------------------------------------------- direction B: traces
+
+RESET_EVENT = {"op": "reset", "t": 0, "k": "", "c": 0, "l": "", "res": "ok", "obs": [], "keys": [], "n": -1, "nf": -1}
+
+
+def record_traces(specs, outdir, timeout=600):
+    """Runs cmd/rnd once per spec (a dict of flag -> value) in parallel; returns the list of trace paths."""
+    exe = build("rnd")
+    procs = []
+    paths = []
+    for i, sp in enumerate(specs):
+        path = os.path.join(outdir, "trace%d.ndjson" % i)
+        args = [exe, "-out", path]
+        for k, v in sp.items():
+            args.append("-%s=%s" % (k, v))
+        paths.append(path)
+        procs.append((args, None))
+    running = []
+    idx = 0
+    t0 = time.time()
+    failed = []
+    while idx < len(procs) or running:
+        while idx < len(procs) and len(running) < NPROC:
+            p = subprocess.Popen(procs[idx][0], stdout=subprocess.DEVNULL, stderr=subprocess.PIPE, env=GOENV)
+            running.append((p, idx))
+            idx += 1
+        time.sleep(0.01)
+        still = []
+        for p, i in running:
+            if p.poll() is None:
+                if time.time() - t0 > timeout:
+                    p.kill()
+                    raise Inconclusive("trace recording timed out")
+                still.append((p, i))
+            elif p.returncode != 0:
+                failed.append((i, p.returncode, p.stderr.read().decode(errors="replace")[-2000:]))
+        running = still
+    return paths, failed
+
+
+def validate_traces(module, consts, trace_paths, workdir, timeout=900):
+    """Concatenates the traces (separated by reset events), lets TLC validate them against `module`, and returns
+    (n_events_consumed, rejection) where rejection is None or (trace index, event index, reason)."""
+    cat = os.path.join(workdir, "traces.ndjson")
+    index = []          # global line (1-based) -> (trace idx, event idx)
+    with open(cat, "w") as out:
+        for ti, p in enumerate(trace_paths):
+            if ti > 0:
+                out.write(json.dumps(RESET_EVENT) + "\n")
+                index.append((ti, -1))
+            for ei, line in enumerate(open(p)):
+                if line.strip():
+                    out.write(line if line.endswith("\n") else line + "\n")
+                    index.append((ti, ei))
+    c = dict(consts)
+    c["TraceFile"] = "traces.ndjson"
+    cfg = os.path.join(workdir, "trace.cfg")
+    write_cfg(cfg, c)
+    r = run_tlc(module, cfg, workdir, workers=1, timeout=timeout)
+    txt = open(r.out_path).read()
+    m = re.search(r'<<\s*"REJECT",\s*"(.*?)"\s*>>', txt, re.S)
+    if m:
+        info = json.loads(json.loads('"' + m.group(1).replace("\n", "") + '"'))
+        ti, ei = index[info["l"] - 1]
+        return r, (ti, ei, info["why"])
+    if r.error or r.violation:
+        raise Inconclusive("trace validation failed to run: %s" % ((r.error or r.violation)[:800]))
+    if r.distinct != len(index) + 1:
+        raise Inconclusive("trace validation consumed %d of %d events without a rejection" % (r.distinct - 1, len(index)))
+    return r, None
+
+
+# ----------------------------------------------------------------------------- concurrency: programs, executions, linearisation
+
+def run_conc(programs, mode="random", runs=20, preempt=2, nproc=NPROC, timeout=3000, extra=()):
+    """Executes the programs (list of dicts) with cmd/conc, sharded over processes. Returns the executions."""
+    exe = build("conc")
+    wd = scratch("conc")
+    try:
+        path = os.path.join(wd, "progs.ndjson")
+        with open(path, "w") as f:
+            for p in programs:
+                f.write(json.dumps(p) + "\n")
+        n = len(programs)
+        per = max(1, (n + nproc * 2 - 1) // (nproc * 2))
+        jobs = [(i, min(per, n - i)) for i in range(0, n, per)]
+        running, results, t0 = [], [], time.time()
+        pending = list(jobs)
+        while pending or running:
+            while pending and len(running) < nproc:
+                frm, cnt = pending.pop(0)
+                outp = os.path.join(wd, "ex%d.ndjson" % frm)
+                fh = open(outp, "w")
+                p = subprocess.Popen([exe, "-in", path, "-mode", mode, "-runs", str(runs), "-preempt", str(preempt), "-seed", str(seed()),
+                                      "-from", str(frm), "-count", str(cnt)] + list(extra), stdout=fh, stderr=subprocess.PIPE, env=GOENV)
+                running.append((p, fh, outp, frm, cnt))
+            time.sleep(0.02)
+            still = []
+            for (p, fh, outp, frm, cnt) in running:
+                if p.poll() is None:
+                    if time.time() - t0 > timeout:
+                        p.kill()
+                        raise Inconclusive("concurrent executions timed out")
+                    still.append((p, fh, outp, frm, cnt))
+                    continue
+                fh.close()
+                got = [json.loads(l) for l in open(outp) if l.strip()]
+                results.extend(got)
+                if p.returncode != 0:
+                    err = p.stderr.read().decode(errors="replace")
+                    results.append({"program": programs[frm]["name"], "family": programs[frm].get("family"), "outcome": "crash",
+                                    "detail": err[-3000:], "history": [], "gates": [], "decisions": []})
+            running = still
+        return results
+    finally:
+        shutil.rmtree(wd, ignore_errors=True)
+
+
+def _lin_batch(args):
+    histories, consts, cur, timeout = args
+    wd = scratch("lin")
+    try:
+        index = []
+        with open(os.path.join(wd, "traces.ndjson"), "w") as out:
+            for n, hi in enumerate(cur):
+                if n > 0:
+                    out.write(json.dumps({"e": "reset", "id": 0}) + "\n")
+                    index.append((hi, -1))
+                for ei, ev in enumerate(histories[hi]):
+                    out.write(json.dumps(ev) + "\n")
+                    index.append((hi, ei))
+        c = dict(consts)
+        c["TraceFile"] = "traces.ndjson"
+        cfg = os.path.join(wd, "lin.cfg")
+        write_cfg(cfg, c, constraint="HW", postcondition="Accepted")
+        r = run_tlc("LinTrace.tla", cfg, wd, workers=1, timeout=timeout, heap="2g")
+        txt = open(r.out_path).read()
+        m = re.search(r'"REJECTED_AT",\s*(\d+)', txt)
+        if m:
+            hi, ei = index[int(m.group(1)) - 1]
+            pos = cur.index(hi)
+            return r.distinct, r.generated, (hi, ei), cur[pos + 1:], None
+        if r.error or (r.violation and "postcondition" not in r.violation.lower()):
+            return r.distinct, r.generated, None, [], (r.error or r.violation)[:800]
+        return r.distinct, r.generated, None, [], None
+    finally:
+        shutil.rmtree(wd, ignore_errors=True)
+
+
+def linearise(histories, consts, batch=200, timeout=900, par=8):
+    """Validates call/return histories against LinTrace.tla (batches separated by reset events, several TLC
+    processes at a time). Returns (states, transitions, rejections); a rejection is (history index, index of the
+    first event that no linearisation can consume)."""
+    from concurrent.futures import ThreadPoolExecutor
+    states = trans = 0
+    rejections = []
+    todo = [list(range(i, min(i + batch, len(histories)))) for i in range(0, len(histories), batch)]
+    with ThreadPoolExecutor(max_workers=par) as pool:
+        while todo:
+            outs = list(pool.map(_lin_batch, [(histories, consts, cur, timeout) for cur in todo]))
+            todo = []
+            for st, tr, rej, rest, err in outs:
+                states += st
+                trans += tr
+                if err:
+                    raise Inconclusive("linearisation check failed to run: %s" % err)
+                if rej:
+                    rejections.append(rej)
+                if rest:
+                    todo.append(rest)
+    return states, trans, rejections
